@@ -345,6 +345,7 @@ func (x *Exec) havocFootprint(st *State, pre *State, ms *ModSet) {
 	}
 	if ms.Any {
 		x.note("call with `modifies *`: entire heap havocked")
+		x.curAlloc = newAlloc
 		for _, k := range heapKeys(st.Heap) {
 			x.heapSet(st, k, c.Fresh("Hc!"+k, x.compSorts[k]))
 			x.rangeAxiom(k, st.Heap[k])
@@ -361,6 +362,7 @@ func (x *Exec) havocFootprint(st *State, pre *State, ms *ModSet) {
 		keys = append(keys, k)
 	}
 	sortStrings(keys)
+	x.curAlloc = newAlloc
 	for _, k := range keys {
 		s := ms.keys[k]
 		x.compSorts[k] = s
